@@ -5,7 +5,7 @@
    The theorems below (re-checked on every run, Print Assumptions gated) say that the regenerated functions ARE the hand-written
    model functions the theorems of Props/C19.v talk about, for all sizes / lists / inputs.  A behaviour-changing edit of one of the
    translated functions (wrong guard, other slice bound, another index, another divisor) breaks the corresponding theorem. *)
-From Coq Require Import List Bool Arith Lia ZArith Field Ring.
+From Coq Require Import List Bool Arith Lia ZArith Field Ring String.
 From QV.Core Require Import OF Sums Mat.
 From QV.Model Require Import Multinomial C19_Expect C19_ErrFormulas C19_PySem.
 From QV.Proofs Require Import C19_Expect C19_ErrFormulas.
@@ -26,8 +26,8 @@ Notation vec := (@vec F). Notation mat := (@mat F).
 
 (* ---------------- replace_prob_dist ---------------- *)
 Lemma count_lt_le eps m (p : vec) : count_lt F eps m p <= m.
-Proof. unfold count_lt. rewrite <- (seq_length m 0) at 2. generalize (seq 0 m) as l. induction l as [|a l IH]; cbn [filter length]; [lia|].
-  destruct (flt F (p a) eps); cbn [length]; lia. Qed.
+Proof. unfold count_lt. rewrite <- (seq_length m 0) at 2. generalize (seq 0 m) as l. induction l as [|a l IH]; cbn [filter List.length]; [lia|].
+  destruct (flt F (p a) eps); cbn [List.length]; lia. Qed.
 Lemma of_nat_sub a b : b <= a -> of_nat F (a - b) = csub F (of_nat F a) (of_nat F b).
 Proof. intros H. replace a with ((a - b) + b) at 2 by lia. rewrite (of_nat_add F). ring. Qed.
 Lemma gen_replace_prob_dist_eq_sec : forall m eps (p : vec) x,
@@ -117,12 +117,12 @@ Proof. revert s. induction J as [|J IH]; intros s; cbn [seq map cov_blocks]; [re
 Lemma gen_tomo_cov_blocks_eq_sec : forall J (pd : nat -> nat * vec) (ns : nat -> F),
   gen_tomo_cov_blocks F J pd ns = cov_blocks F ns 0 (map pd (seq 0 J)).
 Proof. intros. unfold gen_tomo_cov_blocks. apply tomo_cov_blocks_from. Qed.
-Lemma map_nth_seq {A} (l : list A) (d : A) : map (fun j => nth j l d) (seq 0 (length l)) = l.
-Proof. induction l as [|a l IH]; cbn [length seq map nth]; [reflexivity|]. f_equal. rewrite <- seq_shift, map_map. exact IH. Qed.
+Lemma map_nth_seq {A} (l : list A) (d : A) : map (fun j => nth j l d) (seq 0 (List.length l)) = l.
+Proof. induction l as [|a l IH]; cbn [List.length seq map nth]; [reflexivity|]. f_equal. rewrite <- seq_shift, map_map. exact IH. Qed.
 (* ... so with the distributions of calc_prob_dists it is the model's tomo_cov_total *)
 Lemma gen_tomo_cov_total_eq_sec : forall eps nv ms (A : mat) (b v : vec) (ns : nat -> F),
   let pds := tomo_pds F eps nv ms A b v in
-  dsum F (gen_tomo_cov_blocks F (length pds) (fun j => nth j pds (0, fun _ => c0 F)) ns) = tomo_cov_total F eps nv ms A b v ns.
+  dsum F (gen_tomo_cov_blocks F (List.length pds) (fun j => nth j pds (0, fun _ => c0 F)) ns) = tomo_cov_total F eps nv ms A b v ns.
 Proof. intros. rewrite gen_tomo_cov_blocks_eq_sec, map_nth_seq. reflexivity. Qed.
 (* calc_mse_empi_dists_analytical: sum over enumerate(data_num_list) of tr(calc_covariance_mat_single(j, n_j)) *)
 Lemma mse_empi_fold (pd : nat -> nat * vec) (ns : nat -> F) : forall k s acc,
@@ -133,7 +133,7 @@ Proof. induction k as [|k IH]; intros s acc; cbn [seq combine fold_left map mse_
   rewrite IH. unfold gen_tomo_cov_single. destruct (pd s) as [m p]. cbn [fst snd]. ring. Qed.
 Lemma gen_tomo_mse_empi_eq_sec : forall (pd : nat -> nat * vec) (data_num_list : list F),
   gen_tomo_mse_empi F pd data_num_list
-  = mse_empi_pds F (fun j => nth j data_num_list (c0 F)) 0 (map pd (seq 0 (length data_num_list))).
+  = mse_empi_pds F (fun j => nth j data_num_list (c0 F)) 0 (map pd (seq 0 (List.length data_num_list))).
 Proof. intros pd l. unfold gen_tomo_mse_empi.
   rewrite <- (map_nth_seq l (c0 F)) at 2. rewrite mse_empi_fold. ring. Qed.
 (* calc_fisher_matrix_total: the summed terms are weights[j] * calc_fisher_matrix(j, var), j = 0 .. num_schedules-1 *)
@@ -183,6 +183,49 @@ Lemma gen_qmpt_matS_eq_sec : forall d2 mo i j, i < d2 -> gen_qmpt_matS F d2 mo i
 Proof. intros d2 mo i j Hi. unfold gen_qmpt_matS, matS_mp.
   replace (Nat.pow d2 2) with (d2 * d2) by (cbn; lia).
   exact (qmpt_matS_fold d2 (mo - 1) i j Hi). Qed.
+
+(* ---------------- decision structure of calc_mse_linear_analytical / calc_cramer_rao_bound ---------------- *)
+(* the value calc_mse_linear_analytical returns for tomography type ty, assembled from the REGENERATED pieces according to the
+   regenerated override table (who overrides _calc_mse_linear_analytical_mode_qoperation) *)
+Definition gen_mse_value (ty : ttype) (mode_qop on_eq : bool) (d2 mo nv : nat) (V : mat) : F :=
+  let msev := gen_mse_var F nv V in
+  if mode_qop then
+    match ty with
+    | POVMT => gen_povmt_mse_qop F on_eq d2 nv msev (gen_povmt_matS F d2 mo) V
+    | QMPT => gen_qmpt_mse_qop F on_eq d2 nv msev (gen_qmpt_matS F d2 mo) V
+    | _ => gen_base_mse_qop F on_eq d2 nv msev (np_zeros F) V
+    end
+  else msev.
+Definition gen_cr_value_of (ty : ttype) (on_eq : bool) (d2 mo nv : nat) (N : F) (Minv : mat) : F :=
+  let crv := gen_cr_value F N (mtrace nv Minv) in
+  match ty with POVMT => gen_povmt_cr F on_eq d2 nv N crv (gen_povmt_matS F d2 mo) Minv | _ => crv end.
+Lemma povmt_matS_meq d2 mo nv : nv <= (mo - 1) * d2 -> meq d2 nv (gen_povmt_matS F d2 mo) (matS F d2).
+Proof. intros H i j _ Hj. apply gen_povmt_matS_eq_sec. lia. Qed.
+Lemma qmpt_matS_meq d2 mo nv : meq d2 nv (gen_qmpt_matS F d2 mo) (matS_mp F d2 mo).
+Proof. intros i j Hi _. now apply gen_qmpt_matS_eq_sec. Qed.
+Lemma gen_override_tables_sec : gen_overrides_mse_qop = [false; true; false; true] /\ gen_overrides_cr = [false; true; false; false]
+  /\ gen_overrides_other = false.
+Proof. repeat split; reflexivity. Qed.
+Lemma gen_mse_dispatch_eq_sec : forall mode : string,
+  gen_mse_dispatch mode = (if String.eqb mode "qoperation" then Some true else if String.eqb mode "var" then Some false else None)
+  /\ gen_mse_default_mode = "qoperation"%string.
+Proof. intros. split; reflexivity. Qed.
+(* all four types, both modes, both parametrisations: the regenerated decision structure with the regenerated S matrices computes
+   the model's mse_analytical_of_cov (for POVMT the variables are the num_outcomes - 1 free elements: nv <= (mo - 1) * d2) *)
+Lemma gen_mse_value_eq_sec : forall ty mode on_eq d2 mo nv (V : mat), (ty = POVMT -> nv <= (mo - 1) * d2) ->
+  gen_mse_value ty mode on_eq d2 mo nv V = mse_analytical_of_cov F ty mode on_eq d2 mo nv V.
+Proof. intros ty mode on_eq d2 mo nv V Hnv. unfold gen_mse_value, mse_analytical_of_cov, gen_mse_var, gen_base_mse_qop,
+    gen_povmt_mse_qop, gen_qmpt_mse_qop.
+  destruct mode, ty, on_eq; cbn [andb]; try reflexivity.
+  - f_equal. apply mtrace_ext. apply (conjugate_ext F); [apply povmt_matS_meq; now apply Hnv|apply meq_refl].
+  - f_equal. apply mtrace_ext. apply (conjugate_ext F); [apply qmpt_matS_meq|apply meq_refl]. Qed.
+Lemma gen_cov_linear_eq_sec : forall nr (L Sigma : mat), gen_cov_linear F nr L Sigma = cov_linear F nr L Sigma.
+Proof. reflexivity. Qed.
+Lemma gen_cr_value_eq_sec : forall ty on_eq d2 mo nv (N : F) (Minv : mat), (ty = POVMT -> nv <= (mo - 1) * d2) ->
+  gen_cr_value_of ty on_eq d2 mo nv N Minv = cr_analytical F ty on_eq d2 nv N Minv.
+Proof. intros ty on_eq d2 mo nv N Minv Hnv. unfold gen_cr_value_of, cr_analytical, gen_povmt_cr, gen_cr_value, cr_var.
+  destruct ty, on_eq; try reflexivity.
+  f_equal. f_equal. apply mtrace_ext. apply (conjugate_ext F); [apply povmt_matS_meq; now apply Hnv|apply meq_refl]. Qed.
 End Equiv.
 
 (* ---- the theorems, closed (stated outside the section so that Print Assumptions reports the global context) ---- *)
@@ -215,12 +258,12 @@ Proof. intro F; exact (gen_tomo_cov_blocks_eq_sec F) || exact gen_tomo_cov_block
 Print Assumptions gen_tomo_cov_blocks_eq.
 Theorem gen_tomo_cov_total_eq : forall F : OF, forall eps nv ms (A : (@mat F)) (b v : (@vec F)) (ns : nat -> F),
   let pds := tomo_pds F eps nv ms A b v in
-  dsum F (gen_tomo_cov_blocks F (length pds) (fun j => nth j pds (0, fun _ => c0 F)) ns) = tomo_cov_total F eps nv ms A b v ns.
+  dsum F (gen_tomo_cov_blocks F (List.length pds) (fun j => nth j pds (0, fun _ => c0 F)) ns) = tomo_cov_total F eps nv ms A b v ns.
 Proof. intro F; exact (gen_tomo_cov_total_eq_sec F) || exact gen_tomo_cov_total_eq_sec. Qed.
 Print Assumptions gen_tomo_cov_total_eq.
 Theorem gen_tomo_mse_empi_eq : forall F : OF, forall (pd : nat -> nat * (@vec F)) (data_num_list : list F),
   gen_tomo_mse_empi F pd data_num_list
-  = mse_empi_pds F (fun j => nth j data_num_list (c0 F)) 0 (map pd (seq 0 (length data_num_list))).
+  = mse_empi_pds F (fun j => nth j data_num_list (c0 F)) 0 (map pd (seq 0 (List.length data_num_list))).
 Proof. intro F; exact (gen_tomo_mse_empi_eq_sec F) || exact gen_tomo_mse_empi_eq_sec. Qed.
 Print Assumptions gen_tomo_mse_empi_eq.
 Theorem gen_tomo_fisher_terms_eq : forall F : OF, forall J (fisher : nat -> (@mat F)) (w : nat -> F),
@@ -238,3 +281,23 @@ Print Assumptions gen_povmt_matS_eq.
 Theorem gen_qmpt_matS_eq : forall F : OF, forall d2 mo i j, i < d2 -> gen_qmpt_matS F d2 mo i j = matS_mp F d2 mo i j.
 Proof. intro F; exact (gen_qmpt_matS_eq_sec F) || exact gen_qmpt_matS_eq_sec. Qed.
 Print Assumptions gen_qmpt_matS_eq.
+Theorem gen_override_tables : forall F : OF, gen_overrides_mse_qop = [false; true; false; true] /\ gen_overrides_cr = [false; true; false; false]
+  /\ gen_overrides_other = false.
+Proof. intro F; exact (gen_override_tables_sec F) || exact gen_override_tables_sec. Qed.
+Print Assumptions gen_override_tables.
+Theorem gen_mse_dispatch_eq : forall F : OF, forall mode : string,
+  gen_mse_dispatch mode = (if String.eqb mode "qoperation" then Some true else if String.eqb mode "var" then Some false else None)
+  /\ gen_mse_default_mode = "qoperation"%string.
+Proof. intro F; exact (gen_mse_dispatch_eq_sec F) || exact gen_mse_dispatch_eq_sec. Qed.
+Print Assumptions gen_mse_dispatch_eq.
+Theorem gen_mse_value_eq : forall F : OF, forall ty mode on_eq d2 mo nv (V : @mat F), (ty = POVMT -> nv <= (mo - 1) * d2) ->
+  gen_mse_value F ty mode on_eq d2 mo nv V = mse_analytical_of_cov F ty mode on_eq d2 mo nv V.
+Proof. exact gen_mse_value_eq_sec. Qed.
+Print Assumptions gen_mse_value_eq.
+Theorem gen_cov_linear_eq : forall F : OF, forall nr (L Sigma : @mat F), gen_cov_linear F nr L Sigma = cov_linear F nr L Sigma.
+Proof. exact gen_cov_linear_eq_sec. Qed.
+Print Assumptions gen_cov_linear_eq.
+Theorem gen_cr_value_eq : forall F : OF, forall ty on_eq d2 mo nv (N : F) (Minv : @mat F), (ty = POVMT -> nv <= (mo - 1) * d2) ->
+  gen_cr_value_of F ty on_eq d2 mo nv N Minv = cr_analytical F ty on_eq d2 nv N Minv.
+Proof. exact gen_cr_value_eq_sec. Qed.
+Print Assumptions gen_cr_value_eq.
